@@ -294,7 +294,7 @@ class Rec(cattrs.Converter):
 def main(out_v, out_json):
     stats = collections.Counter()
     out = ["(* generated by lib/x_pkg.py from the imported lsprotocol package and _hooks.py — do not edit *)",
-           "From LSP Require Import Base Sem.", "Open Scope string_scope."]
+           "From LSP Require Import Base Sem Catalog.", "Open Scope string_scope."]
     cnames, cls_names = [], []
     for name, obj in sorted(T.ALL_TYPES_MAP.items()):
         if isinstance(obj, type) and attrs.has(obj):
@@ -388,6 +388,45 @@ def main(out_v, out_json):
         if True:
             arows.append("(%s, %s)" % (q(name), ty(obj)))
     out.append("Definition alias_objects : list (string * pty) := [\n  " + ";\n  ".join(arows) + "].")
+    # ---- method catalogue, directions, exported constants, registry (property C09)
+    def opt_ty(x):
+        return "None" if x is None else "(Some %s)" % ty(x)
+
+    def opt_name(x):
+        if x is None:
+            return "None"
+        if not isinstance(x, type):
+            raise Reject("catalogue class entry is not a class: %.100r" % (x,))
+        return "(Some %s)" % q(x.__name__)
+    crow = []
+    m2t = getattr(T, "METHOD_TO_TYPES", None)
+    mdir = getattr(T, "_MESSAGE_DIRECTION", None)
+    if not isinstance(m2t, dict) or not isinstance(mdir, dict):
+        raise Reject("METHOD_TO_TYPES / _MESSAGE_DIRECTION missing")
+    for m in sorted(set(m2t) | set(mdir)):
+        tup = m2t.get(m)
+        if tup is not None and (not isinstance(tup, tuple) or len(tup) != 4):
+            raise Reject("catalogue row shape for %s" % m)
+        try:
+            d = T.message_direction(m)
+        except Exception:
+            d = None
+        if d != mdir.get(m):
+            raise Reject("message_direction(%r) disagrees with _MESSAGE_DIRECTION" % m)
+        crow.append("{| cm_method := %s; cm_cls := %s; cm_resp := %s; cm_params := %s; cm_regopts := %s; cm_dir := %s |}"
+                    % (q(m), opt_name(tup[0]) if tup else "None", opt_name(tup[1]) if tup else "None", opt_ty(tup[2]) if tup else "None",
+                       opt_ty(tup[3]) if tup else "None", ("(Some %s)" % q(d)) if isinstance(d, str) else "None"))
+    out.append("Definition catalogue : list catrow := [\n  " + ";\n  ".join(crow) + "].")
+    consts = sorted((k, v) for k, v in vars(T).items() if isinstance(v, str) and k.isupper() and not k.startswith("_"))
+    out.append("Definition method_constants : list (string * string) := [%s]." % "; ".join("(%s, %s)" % (q(k), q(v)) for k, v in consts))
+    reg = sorted(k for k in T.ALL_TYPES_MAP if k != "__builtins__")
+    out.append("Definition registry_names : list string := [%s]." % "; ".join(q(k) for k in reg))
+    defined = sorted(k for k, v in vars(T).items() if isinstance(v, type) and v.__module__ == T.__name__)
+    out.append("Definition defined_types : list string := [%s]." % "; ".join(q(k) for k in defined))
+    out.append("Definition lsp_version : string := %s." % q(str(getattr(T, "__lsp_version__", ""))))
+    stats["catalogue_rows"] = len(crow)
+    stats["registry_names"] = len(reg)
+    stats["defined_types"] = len(defined)
     out.append("Definition plain_classes : list string := [%s]." % "; ".join(q(x) for x in plain))
     write_if_changed(out_v, "\n".join(out) + "\n")
     stats["classes"] = len(cls_names)
